@@ -172,6 +172,14 @@ def run_case(R, level, op, status, index, nvb, when, nreq=1):
             R.mon["index_beyond_list"] += 1
         else:
             R.mon["index_zero_or_negative"] += 1
+    # the same client, next request, no error any more: the agent's data, not the error again
+    w.agent.pdu_hook = None
+    w.seam.reset(budget=6)
+    nxt = rig.outcome(lambda: drive(w.client.get(OID(KEYS[0]))))
+    if nxt[0] != "ok" or rig.to_tuple(nxt[1]) != DB[KEYS[0]]:
+        R.violation(case, "after the error response the next request on the same client gave %r" % (nxt[1],), None)
+        return
+    R.mon["next_request_after_error_ok"] += 1
 
 
 def matrix():
